@@ -50,6 +50,10 @@ def cases(tier, seed):
             # always include the boundary pair 1000*m vs 1*UNIT style: equal values written differently
             picks.append(("1000", "1"))
             picks.append(("1", "1"))
+            # values closer than the comparison tolerance (in either order): the six operators must stay consistent
+            picks.append(("1", "1.0000000000000000000001"))
+            picks.append(("-2.00000000000000000000004", "-2"))
+            picks.append(("1", "1.00000000000000000002"))
             for a, b in picks:
                 yield (a, pa.name, b, pb.name)
 
